@@ -42,6 +42,7 @@ static void gen_eqcmp(const GenCtx &ctx, Case &c, int viewpct) {
   c.sets("op", "mzd_equal_cmp");
   int capv = g::cap(ctx);
   int m = g::dim(std::min(capv, 120)), n = g::dim(std::max(capv, 200));
+  g::extreme_shape(ctx, m, n);
   c.set("m", m).set("n", n);
   g::pat(c, "A", m, n, false);
   g::place(c, "A", viewpct);
@@ -111,6 +112,7 @@ static void gen_zero(const GenCtx &ctx, Case &c, int viewpct) {
   c.sets("op", g::coin(1, 2) ? "mzd_is_zero" : "mzd_first_zero_row");
   int capv = g::cap(ctx);
   int m = g::dim(std::min(capv, 150)), n = g::dim(std::max(capv, 200));
+  g::extreme_shape(ctx, m, n);
   c.set("m", m).set("n", n);
   c.sets("A.pat", g::wpick<std::string>({{3, "zero"}, {3, "single"}, {1, "spn"}, {1, "sp6"}, {1, "dense"}, {1, "row"}}));
   c.setu("A.seed", g::seed());
@@ -160,6 +162,7 @@ static void gen_pivot(const GenCtx &ctx, Case &c, int viewpct) {
   c.sets("op", "mzd_find_pivot");
   int capv = g::cap(ctx);
   int m = g::dim(std::min(capv, 100)), n = g::dim(std::max(capv, 300));
+  g::extreme_shape(ctx, m, n);
   c.set("m", m).set("n", n);
   c.sets("A.pat", g::wpick<std::string>({{3, "single"}, {2, "spn"}, {2, "sp6"}, {1, "zero"}, {2, "dense"}, {1, "sp3"}, {1, "col"}, {2, "lowrank"}}));
   c.setu("A.seed", g::seed());
